@@ -119,6 +119,7 @@ FINITE_NEXT = {
     "<util::Df88591StringChars as core::iter::Iterator>::next",
 }
 
+POSITION = re.compile(r"<core::slice::Iter<('a, )?T> as core::iter::Iterator>::position")
 RANGE_NEXT = "core::iter::range::<impl core::iter::Iterator for core::ops::Range<A>>::next"
 RANGE_INCL_NEXT = "core::iter::range::<impl core::iter::Iterator for core::ops::RangeInclusive<A>>::next"
 INTO_ITER = "<I as core::iter::IntoIterator>::into_iter"
